@@ -233,3 +233,5 @@ def run(cx, out):
         check_sinks(out, facts)
         c08.check_remaining_len_taint(out, facts)
         check_progress(out, facts)
+    from . import positive
+    positive.check(cx, out, 'C09')
